@@ -112,6 +112,7 @@ type simNode struct {
 	panicked               bool
 	curWellFormed          bool   // the event in progress delivers a message the harness decoded completely
 	swallowed              string // a panic the worker's guard swallowed during it
+	aheadNV                []*aMsg // NEW_VIEWs delivered to this node for a height it had not reached yet
 }
 
 type commitRec struct {
@@ -554,6 +555,15 @@ func runWorldModeX(cfg *runCfg, name string, kf1 bool, live bool) error {
 			} else {
 				rep.count("live:skipped: " + why)
 			}
+		} else if live && i == 1 {
+			w = directedWorld(r, rep, cfg.seed*100000+1, 3)
+			w.wrongBlockVotePrefix()
+			rep.count("world:directed-wrong-block-vote-prefix")
+			if why, ok := w.stabilise(); ok {
+				rep.count("live:stabilised-worlds")
+			} else {
+				rep.count("live:skipped: " + why)
+			}
 		} else if live {
 			w.run()
 			if why, ok := w.stabilise(); ok {
@@ -565,6 +575,10 @@ func runWorldModeX(cfg *runCfg, name string, kf1 bool, live bool) error {
 			w = kf1ForkWorld(r, rep, cfg.seed*100000)
 			w.kf1ForkScript()
 			rep.count("world:directed-KF-1-fork-script")
+		} else if kf1 && i == 1 {
+			w = kf1ForkWorld(r, rep, cfg.seed*100000+1)
+			w.barePreprepareThenNewViewScript()
+			rep.count("world:directed-bare-preprepare-then-new-view-script")
 		} else if !kf1 && i == 0 {
 			w = equivocationWorld(r, rep, cfg.seed*100000)
 			w.equivocationScript()
@@ -617,6 +631,18 @@ func runWorldModeX(cfg *runCfg, name string, kf1 bool, live bool) error {
 			w = directedWorld(r, rep, cfg.seed*100000+12, 3)
 			w.liftedProofScript()
 			rep.count("world:directed-lifted-proof-script")
+		} else if !kf1 && i == 13 {
+			w = directedWorldW(r, rep, cfg.seed*100000+13, []uint64{1, 1, 1, 1, 1}, 2)
+			w.hugeViewRoleScript()
+			rep.count("world:directed-huge-view-role-script")
+		} else if !kf1 && i == 14 {
+			w = directedWorld(r, rep, cfg.seed*100000+14, 1)
+			w.foreignInstanceAheadScript()
+			rep.count("world:directed-foreign-instance-ahead-script")
+		} else if !kf1 && i == 15 {
+			w = directedWorld(r, rep, cfg.seed*100000+15, 3)
+			w.bareBlockVoteScript()
+			rep.count("world:directed-bare-block-vote-script")
 		} else {
 			w.run()
 		}
@@ -628,6 +654,11 @@ func runWorldModeX(cfg *runCfg, name string, kf1 bool, live bool) error {
 			}
 		}
 		w.finalMonitors()
+		if os.Getenv("LHV_TRACE_WORLD") == fmt.Sprint(i) { // debugging aid: the schedule of one world
+			for _, t := range w.trace {
+				fmt.Fprintln(os.Stderr, t)
+			}
+		}
 		if i < 2 {
 			rep.sample(map[string]interface{}{"weights": fmt.Sprint(w.weights), "byzantine": keysOf(w.byz), "schedule_head": head(w.trace, 25)}, 3)
 		}
